@@ -270,7 +270,11 @@ func (o *OAuth2) End(w http.ResponseWriter, r *http.Request) error {
 				r = r.WithContext(context.WithValue(r.Context(), authboss.CTXKeyValues, RMTrue{}))
 			}
 		case FormValueOAuth2Redir:
-			redirect = v
+			// Guard against Open Redirect, this came in on the query string
+			// of the start request.
+			if authboss.IsSafeRedirect(v) {
+				redirect = v
+			}
 		default:
 			query.Set(k, v)
 		}
